@@ -62,5 +62,16 @@ PROPS['C16'] = dict(
     trusted=['T9 argparse: optional int arguments are None or an int, nargs=+ arguments None or a non-empty list of ints; parser.error raises SystemExit(2)'],
     assumptions=['the reporting order of the "- optimisation:" lines (run_optimisations) is covered under C04/C14 contracts of lp_solver once built; here by the bounded runs only',
                  'Solver.__init__ calls parse before import_model (sequential code, checked by the bounded runs with a nonexistent file name)'])
+MOD = 'model:Model.'
+PROPS['C06'] = dict(
+    title='Stability checker answers True exactly for matchings without a blocking pair',
+    functions=[MOD + 'get_num_assignments_projects', MOD + 'get_num_assignments_lecturers', MOD + 'get_worst_rank_projects',
+               MOD + 'get_worst_rank_lecturers', MOD + 'check_stability'],
+    lemmas=[],
+    level_text='check_stability verified against the SPA-STL blocking-pair definition for every instance size and every assignment list (entries None or a usable two-sided pair): result == not exists blocking pair, via search-loop invariants; the four helpers have count / worst-rank postconditions; every comparison with None is a safety obligation (always returns a boolean)',
+    harness=True, bound='<= 3 students x <= 3 projects x <= 3 lecturers, all upper-quota-respecting assignments',
+    trusted=['blocking() is transcribed from the property statement (conditions 2, 3a, 3b, 3c)'],
+    assumptions=['precondition ModelWF (sizes_ok, pairs_ok, two_sided) is established by the reader (C10); the printed stability_correct line additionally relies on C05 (LP) contracts',
+                 'Python int is unbounded'])
 NOT_APPLICABLE = {}
 NOTES = 'see DESIGN.md; ./check Cxx --tier quick|thorough; exit 0 held / 1 VIOLATION / 2 undecided / 3 checker error'
